@@ -209,6 +209,22 @@ class Program:
                 return InterfaceClass.__adapt__(self_, obj)
         out.append(AdaptingInterfaceClass('ICk', (Interface,), {}, __module__=mod))
         out.append(AdaptingInterfaceClass('ICkd', (out[-1],), {}, __module__=mod))
+
+        class DerivedKind(AdaptingInterfaceClass):
+            # a further subclass that merely inherits the override
+            def describe(self_):
+                return 'kind:' + self_.__name__
+        out.append(DerivedKind('ICkk', (Interface,), {}, __module__=mod))
+
+        class AdaptMixin:
+            def __adapt__(self_, obj):
+                if getattr(obj, 'zname', '') == 'o0':
+                    return 'adapted-by-the-mix-in'
+                return None
+
+        class MixedKind(AdaptMixin, InterfaceClass):
+            pass
+        out.append(MixedKind('ICkm', (Interface,), {}, __module__=mod))
         return out
 
     def make_odd(self):
